@@ -121,8 +121,13 @@ namespace nmtools::index
         using left_slice_t  = meta::at_t<result_pack_t,0>;
         using right_slice_t = meta::at_t<result_pack_t,1>;
 
-        [[maybe_unused]] const auto row = at(indices,meta::ct_v<-2>);
-        [[maybe_unused]] const auto col = at(indices,meta::ct_v<-1>);
+        // NumPy's promotion of a 1-d operand: a 1-d lhs is a row vector and the result has no row coordinate,
+        // a 1-d rhs is a column vector and the result has no column coordinate.
+        // LEN == 0: the number of dimensions is only known at run time
+        [[maybe_unused]] constexpr auto L_LEN = meta::len_v<left_slice_t>;
+        [[maybe_unused]] constexpr auto R_LEN = meta::len_v<right_slice_t>;
+        [[maybe_unused]] const auto l_vector = ((nm_size_t)len(lshape) == 1);
+        [[maybe_unused]] const auto r_vector = ((nm_size_t)len(rshape) == 1);
 
         [[maybe_unused]] const auto all = nmtools_tuple{none_t{},none_t{}};
 
@@ -137,8 +142,11 @@ namespace nmtools::index
         //             right -> [::,i_{-1}]
 
         auto matmul_dim = len(shape);
+        // the batch axes of an operand are right-aligned with the batch axes of the result;
+        // the result has one non-batch axis less for each 1-d operand
+        auto batch_dim = matmul_dim + (l_vector ? 1 : 0) + (r_vector ? 1 : 0);
         auto fill_non_matmul_index = [&](auto& slices, auto i, const auto& src_shape){
-            auto offset = matmul_dim - len(src_shape);
+            auto offset = batch_dim - len(src_shape);
             auto si = at(src_shape,i);
             at(slices,i) = (si == 1 ? 0 : at(indices,i+offset));
         };
@@ -153,7 +161,7 @@ namespace nmtools::index
                     fill_non_matmul_index(slices,i,src_shape);
                 }
             } else {
-                meta::template_for<LEN-2>([&](auto index){
+                meta::template_for<(LEN > 2 ? LEN-2 : 0)>([&](auto index){
                     fill_non_matmul_index(slices,index,src_shape);
                 });
             }
@@ -168,7 +176,18 @@ namespace nmtools::index
             }
 
             at(l_slices,meta::ct_v<-1>) = all;
-            at(l_slices,meta::ct_v<-2>) = at(indices,meta::ct_v<-2>);
+            // the row coordinate is the last but one of the result, or the last when the result has no column coordinate;
+            // a 1-d lhs has no row axis: its only axis is the contracted one
+            if constexpr (L_LEN >= 2 && R_LEN >= 2) {
+                at(l_slices,meta::ct_v<-2>) = at(indices,meta::ct_v<-2>);
+            } else if constexpr (L_LEN >= 2 && R_LEN == 1) {
+                at(l_slices,meta::ct_v<-2>) = at(indices,meta::ct_v<-1>);
+            } else if constexpr (L_LEN != 1) {
+                if (!l_vector) {
+                    const auto n_indices = (nm_size_t)len(indices);
+                    at(l_slices,meta::ct_v<-2>) = at(indices,(nm_size_t)(r_vector ? n_indices-1 : n_indices-2));
+                }
+            }
 
             fill_non_matmul_indices(l_slices,lshape);
 
@@ -182,8 +201,20 @@ namespace nmtools::index
                 r_slices.resize(r_dim);
             }
 
-            at(r_slices,meta::ct_v<-2>) = all;
-            at(r_slices,meta::ct_v<-1>) = at(indices,meta::ct_v<-1>);
+            if constexpr (R_LEN >= 2) {
+                at(r_slices,meta::ct_v<-2>) = all;
+                at(r_slices,meta::ct_v<-1>) = at(indices,meta::ct_v<-1>);
+            } else if constexpr (R_LEN == 1) {
+                // the only axis of rhs is the contracted one
+                at(r_slices,meta::ct_v<-1>) = all;
+            } else {
+                if (r_vector) {
+                    at(r_slices,meta::ct_v<-1>) = all;
+                } else {
+                    at(r_slices,meta::ct_v<-2>) = all;
+                    at(r_slices,meta::ct_v<-1>) = at(indices,meta::ct_v<-1>);
+                }
+            }
 
             fill_non_matmul_indices(r_slices,rshape);
 
@@ -288,7 +319,10 @@ namespace nmtools::meta
                 using m_shape_t = type_t<decltype(shape_vtype)>;
                 constexpr auto f_size = len_v<m_shape_t>;
                 [[maybe_unused]] constexpr auto b_size = bounded_size_v<m_shape_t>;
-                if constexpr (f_size > 0) {
+                if constexpr (f_size == 1) {
+                    // 1-d operand (promoted by NumPy's rule): the only axis is contracted
+                    return as_value_v<nmtools_tuple<all_t>>;
+                } else if constexpr (f_size > 0) {
                     using i_slice_t  = type_t<decltype(f_init_vtype)>;
                     return meta::template_reduce<f_size-2>([](auto init, auto){
                         using concatenated = concat_type_t<nmtools_tuple<index_t>,type_t<decltype(init)>>;
